@@ -9,8 +9,9 @@ THEOREMS = ["C07_floor", "C07_cap", "C07_step_safe", "C07_no_growth_when_over", 
 EVAL = "C07_Check.eval"
 CLAUSES = ["agree", "answered", "floor", "cap", "step_safe", "no_growth", "burst", "over_commit", "count", "burst_mono"]
 RULE = ("calc cases: distinct input tuples under the global-allocate strategy that were answered (no panic); "
-        "history cases: distinct histories in which at some point at least two instances are on record and which "
-        "contain a limit change, an instance removal, a concurrent batch, or a state whose sum exceeds the limit")
+        "history cases: distinct histories in which at some point at least two instances are on record for a schema and "
+        "which contain a limit or item-type change, an instance removal, a concurrent batch, several schemas, a "
+        "count-strategy or untyped item, a refused report, or a state whose sum exceeds the limit")
 TRUSTED_BASE = [
     "Coq 8.16.1 kernel + vm_compute (case files); Flocq 4.1.0 (IEEE754.BinarySingleNaN at 53/1024) as the definition of binary64",
     "hand-written model C07_Model.v / C07_Float.v tied to /repo by the differential run of this check "
@@ -346,7 +347,7 @@ def gen_multi(rng, conc):
 
 
 def generate(rng, tier, scale=1):
-    ng, nr, nl, nh, nc, nk, nm = ((1700, 800, 500, 90, 30, 30, 90) if tier == "quick"
+    ng, nr, nl, nh, nc, nk, nm = ((1500, 700, 400, 80, 25, 25, 80) if tier == "quick"
                                   else (30000, 15000, 8000, 1500, 500, 400, 1500))
     calcs, hists = [], []
     for _ in range(ng * scale):
@@ -579,7 +580,8 @@ LEVEL_TEXT = ("full proof: Coq theorems, for every binary64 value (NaN and infin
               "of calculateNextQuota may produce and all int32 limits, sums and previous quotas, about a float64-exact "
               "Gallina model (Flocq binary64) of the clamps of calculateNextQuota and of the server's bookkeeping; lifted "
               "by induction to every history of honest reports (any grouping into concurrent batches, any serialisation), "
-              "limit changes and removals; the model is compared exactly (quota and burst) with the real "
+              "schema changes (limit, burst, item type) and removals, for every schema of an upstream with several "
+              "schemas; the model is compared exactly (quota and burst) with the real "
               "calculateNextQuota and a real rateLimiter on every run and the executable spec is evaluated on the real "
               "observations")
 LEVEL_NOTE = ("trusted: Coq kernel + vm_compute, Flocq's formalisation of IEEE-754, the hand-written model (tied by the "
